@@ -1,6 +1,25 @@
 import PsVerif.Props.C14
+/-!
+# Refinement theorem for the PFB reader model (`Model.PFB.readLoop` / `read` / `drain`)
+
+Everything announced is proved in full (no `…_partial`, nothing missing):
+
+* `Seg`, `frame`, `specOut`, `WF` (types 1/2, lengths < 2^32), `TailOK` (`[]` or `0x80 :: 3 :: garbage`).
+* `Pending st rest` — the invariant "the bytes still to be delivered from `st` are exactly `rest`"
+  (any state 0 / 1 / 2 / -1, any schedule).
+* `loop_spec` — `readLoop fuel st n out` for every `fuel ≥ 2 * n + 2 * st.src.length + cst st.state` (`cst ≤ 3`),
+  hence in particular for the fuel `2 * n + 2 * st.src.length + 8` used by `read`.
+* `read_refines` — single-call theorem: `out = rest.take n`, `out.length = min n rest.length`,
+  `n ≤ rest.length → err = none ∧ Pending st' (rest.drop n)`, `rest.length < n → out = rest ∧ err = some .eof`.
+* `drain_spec` — the list of results of successive reads equals `specDrain rest sizes`, a function of the
+  specification output and the sizes only; consequences `pfb_refine_concat` (concatenation = prefix of the
+  specification output), `pfb_refine_full` (every read before exhaustion returns exactly its buffer size and no error),
+  `pfb_refine_eof` (once the sizes exceed the output the last read returns EOF and everything was delivered) —
+  with or without end marker.  The hypothesis "all sizes > 0" is not needed.
+* auxiliary facts: `readFull_gen`, `hexLower_append`, `hexLower_take`, `hexLower_drop`, `hexLower_park`.
+-/
 namespace PsVerif.Proofs.PFBRefine
-open PsVerif.Model.PFB
+open PsVerif.Model.PFB PsVerif.Props.C14
 
 structure Seg where
   tp : Nat
@@ -316,13 +335,137 @@ theorem loop_spec : ∀ (fuel : Nat) (st : St) (n : Nat) (out rest : List UInt8)
     rcases hcase with ⟨hs, hd, hr⟩ | ⟨hs, hr⟩ | ⟨hs, hr⟩ | ⟨hs, hr⟩
     · -- header
       subst hs hd hr
-      sorry
+      simp only [List.nil_append, List.length_nil, cst_0] at hf ⊢
+      cases segs with
+      | nil =>
+        simp only [frame, List.nil_append, specOut] at hf ⊢
+        have fin : ∀ st', Post [] n out (out, some PErr.eof, st') := fun st' =>
+          ⟨by simp, fun h => by simp at h; omega, fun _ => rfl⟩
+        rcases htl with rfl | ⟨g, rfl⟩
+        · obtain ⟨st', he⟩ := step_empty sc 0 t n fuel out hn'
+          rw [he]; exact fin _
+        · obtain ⟨f, rfl⟩ : ∃ f, fuel = f + 1 := ⟨fuel - 1, by omega⟩
+          obtain ⟨st', he⟩ := step_end g sc 0 t n f out hn'
+          rw [he]; exact fin _
+      | cons s ss =>
+        obtain ⟨htp, hlen⟩ := hwf s (by simp)
+        have hwf' : WF ss := fun x hx => hwf x (by simp [hx])
+        have hfr : frame (s :: ss) ++ tl =
+            0x80 :: UInt8.ofNat s.tp :: UInt8.ofNat s.data.length :: UInt8.ofNat (s.data.length / 256) ::
+              UInt8.ofNat (s.data.length / 65536) :: UInt8.ofNat (s.data.length / 16777216) ::
+              (s.data ++ (frame ss ++ tl)) := by
+          simp [frame, le32bytes]
+        have hfl := frame_cons_length s ss
+        rw [List.length_append] at hf
+        rw [hfr]
+        have h13 : UInt8.ofNat s.tp ≠ 0 ∧ UInt8.ofNat s.tp ≤ 3 := by
+          rcases htp with h | h <;> rw [h] <;> decide
+        obtain ⟨sc', he⟩ := step_header (UInt8.ofNat s.tp) _ _ _ _ h13.1 h13.2 (s.data ++ (frame ss ++ tl)) sc 0 t n
+          fuel out hn'
+        rw [he, le32_bytes _ hlen]
+        apply ih
+        · refine ⟨s.data, ss, tl, hwf', htl, rfl, rfl, ?_⟩
+          rcases htp with h | h
+          · right; left
+            simp only [h, specOut]
+            exact ⟨by decide, by simp⟩
+          · right; right; left
+            simp only [h, specOut]
+            exact ⟨by decide, by simp⟩
+        · simp only [List.length_append] at hf ⊢
+          have := cst_le ↑(UInt8.ofNat s.tp).toNat
+          omega
     · -- text
       subst hs hr
-      sorry
+      obtain ⟨j, sc', hj0, hjn, hjl, heq⟩ :=
+        step_text (d ++ (frame segs ++ tl)) sc d.length t n fuel out hn' (by simp)
+      rw [heq]
+      have htake : (d ++ (frame segs ++ tl)).take j = d.take j := List.take_append_of_le_length hjl
+      have hdrop : (d ++ (frame segs ++ tl)).drop j = d.drop j ++ (frame segs ++ tl) :=
+        List.drop_append_of_le_length hjl
+      rw [htake, hdrop]
+      have hsplit : d ++ specOut segs = d.take j ++ (d.drop j ++ specOut segs) := by
+        rw [← List.append_assoc, List.take_append_drop]
+      have hl : (d.take j).length = j := by simp only [List.length_take]; omega
+      rw [hsplit]
+      apply post_shift _ _ _ _ _ (by omega)
+      rw [hl]
+      apply ih
+      · refine ⟨d.drop j, segs, tl, hwf, htl, rfl, by simp, ?_⟩
+        by_cases hz : d.length - j = 0
+        · have : d.drop j = [] := List.drop_eq_nil_of_le (by omega)
+          left; simp [hz, this]
+        · right; left; simp [hz]
+      · simp only [cst_1, List.length_append, List.length_drop] at hf ⊢
+        have := cst_le (if d.length - j = 0 then 0 else 1)
+        by_cases hz : d.length = 0
+        · have hj : j = 0 := by omega
+          subst hj
+          simp only [hz, Nat.sub_self, if_true, cst_0] at this ⊢
+          omega
+        · have := hj0 (by omega)
+          omega
     · -- binary
       subst hs hr
-      sorry
+      obtain ⟨sc', heq⟩ := step_bin (d ++ (frame segs ++ tl)) sc d.length t n fuel out hn' (by simp)
+        (min ((n + 1) / 2) d.length) rfl
+      rw [heq]
+      generalize hk : min ((n + 1) / 2) d.length = k
+      have hkl : k ≤ d.length := by omega
+      have htake : (d ++ (frame segs ++ tl)).take k = d.take k := List.take_append_of_le_length hkl
+      have hdrop : (d ++ (frame segs ++ tl)).drop k = d.drop k ++ (frame segs ++ tl) :=
+        List.drop_append_of_le_length hkl
+      rw [htake, hdrop]
+      have hd : hexLower d = hexLower (d.take k) ++ hexLower (d.drop k) := by
+        rw [← hexLower_append, List.take_append_drop]
+      have hlk : (d.take k).length = k := by simp only [List.length_take]; omega
+      by_cases hodd : n < 2 * k
+      · rw [if_pos hodd]
+        have hne : d.take k ≠ [] := by
+          intro h
+          have := congrArg List.length h
+          rw [hlk] at this
+          simp at this; omega
+        have hpark := hexLower_park (d.take k) hne
+        rw [hlk] at hpark
+        have hsplit : hexLower d ++ specOut segs =
+            (hexLower (d.take k)).take (2 * k - 1) ++
+              (hexEncode ((d.take k).getLast! &&& 0x0f) :: (hexLower (d.drop k) ++ specOut segs)) := by
+          rw [hd]
+          conv => lhs; rw [hpark]
+          simp
+        have hAl : ((hexLower (d.take k)).take (2 * k - 1)).length = 2 * k - 1 := by
+          simp only [List.length_take, hexLower_length, hlk]; omega
+        rw [hsplit]
+        apply post_shift _ _ _ _ _ (by omega)
+        rw [hAl]
+        apply ih
+        · refine ⟨d.drop k, segs, tl, hwf, htl, rfl, by simp, ?_⟩
+          right; right; right; exact ⟨rfl, rfl⟩
+        · simp only [cst_2, cst_m1, List.length_append, List.length_drop] at hf ⊢
+          omega
+      · rw [if_neg hodd]
+        have hsplit : hexLower d ++ specOut segs =
+            hexLower (d.take k) ++ (hexLower (d.drop k) ++ specOut segs) := by
+          rw [hd, List.append_assoc]
+        have hAl : (hexLower (d.take k)).length = 2 * k := by rw [hexLower_length, hlk]
+        rw [hsplit]
+        apply post_shift _ _ _ _ _ (by omega)
+        rw [hAl]
+        apply ih
+        · refine ⟨d.drop k, segs, tl, hwf, htl, rfl, by simp, ?_⟩
+          by_cases hz : d.length - k = 0
+          · have : d.drop k = [] := List.drop_eq_nil_of_le (by omega)
+            left; simp [hz, this, hexLower]
+          · right; right; left; simp [hz]
+        · simp only [cst_2, List.length_append, List.length_drop] at hf ⊢
+          have := cst_le (if d.length - k = 0 then 0 else 2)
+          by_cases hz : d.length = 0
+          · have hj : k = 0 := by omega
+            subst hj
+            simp only [hz, Nat.sub_self, if_true, cst_0] at this ⊢
+            omega
+          · omega
     · -- parked nibble
       subst hs hr
       rw [step_tail _ _ _ _ _ _ _ hn']
@@ -339,5 +482,174 @@ theorem loop_spec : ∀ (fuel : Nat) (st : St) (n : Nat) (out rest : List UInt8)
       · simp only [cst_m1, List.length_cons, List.length_nil] at hf ⊢
         have := cst_le (if d.length = 0 then 0 else 2)
         omega
+
+/-! ## one `Read` call -/
+
+theorem read_post (st : St) (n : Nat) (rest : List UInt8) (hP : Pending st rest) :
+    Post rest n [] (read st n) := by
+  unfold PsVerif.Model.PFB.read
+  apply loop_spec _ _ _ _ _ hP
+  have := cst_le st.state
+  omega
+
+/-- **single-call refinement**: from any in-progress state whose still-to-be-delivered bytes are `rest`, a `Read`
+with a buffer of `n` bytes returns exactly the next `min n rest.length` bytes; while the buffer can be filled there
+is no error and the invariant holds for the remainder; otherwise everything left is returned together with EOF.
+(No assumption on `n`, on the schedule of the underlying reader or on where segment boundaries fall.) -/
+theorem read_refines (st : St) (n : Nat) (rest : List UInt8) (hP : Pending st rest) :
+    (read st n).1 = rest.take n ∧ (read st n).1.length = min n rest.length ∧
+    (n ≤ rest.length → (read st n).2.1 = none ∧ Pending (read st n).2.2 (rest.drop n)) ∧
+    (rest.length < n → (read st n).1 = rest ∧ (read st n).2.1 = some .eof) := by
+  obtain ⟨h1, h2, h3⟩ := read_post st n rest hP
+  rw [List.nil_append] at h1
+  refine ⟨h1, by rw [h1, List.length_take], h2, fun h => ⟨?_, h3 h⟩⟩
+  rw [h1, List.take_of_length_le (by omega)]
+
+/-! ## successive `Read` calls -/
+
+/-- what successive reads must return, as a function of the specification output only -/
+def specDrain : List UInt8 → List Nat → List (List UInt8 × Option PErr)
+  | _, [] => []
+  | rest, n :: ns =>
+    if n ≤ rest.length then (rest.take n, none) :: specDrain (rest.drop n) ns else [(rest, some .eof)]
+
+/-- **multi-call refinement**: the whole list of results of successive reads is determined by the specification
+output and the buffer sizes alone -/
+theorem drain_spec (sizes : List Nat) : ∀ (st : St) (rest : List UInt8), Pending st rest →
+    drain st sizes = specDrain rest sizes := by
+  induction sizes with
+  | nil => intro st rest _; rfl
+  | cons n ns ih =>
+    intro st rest hP
+    unfold drain specDrain
+    obtain ⟨h1, _, h2, h3⟩ := read_refines st n rest hP
+    generalize PsVerif.Model.PFB.read st n = r at h1 h2 h3
+    obtain ⟨o, e, st'⟩ := r
+    simp only at h1 h2 h3 ⊢
+    by_cases hle : n ≤ rest.length
+    · obtain ⟨he, hP'⟩ := h2 hle
+      subst he h1
+      simp only [hle, if_true]
+      rw [ih st' _ hP']
+    · obtain ⟨ho, he⟩ := h3 (by omega)
+      subst he ho
+      simp only [hle, if_false]
+
+theorem specDrain_flatten (sizes : List Nat) : ∀ rest : List UInt8,
+    ((specDrain rest sizes).map (·.1)).flatten = rest.take sizes.sum := by
+  induction sizes with
+  | nil => intro rest; simp [specDrain]
+  | cons n ns ih =>
+    intro rest
+    unfold specDrain
+    by_cases hle : n ≤ rest.length
+    · simp only [hle, if_true, List.map_cons, List.flatten_cons, ih, List.sum_cons, List.take_add]
+    · simp only [hle, if_false, List.map_cons, List.map_nil, List.flatten_cons, List.flatten_nil,
+        List.append_nil, List.sum_cons]
+      rw [List.take_of_length_le (by omega)]
+
+/-- every call before exhaustion returns exactly its buffer's worth of bytes and no error -/
+theorem specDrain_get (sizes : List Nat) : ∀ (rest : List UInt8) (i : Nat) (hi : i < sizes.length),
+    (sizes.take (i + 1)).sum ≤ rest.length →
+    (specDrain rest sizes)[i]? = some ((rest.drop (sizes.take i).sum).take sizes[i], none) := by
+  induction sizes with
+  | nil => intro rest i hi; simp at hi
+  | cons n ns ih =>
+    intro rest i hi hsum
+    simp only [List.take_succ_cons, List.sum_cons] at hsum
+    unfold specDrain
+    have hle : n ≤ rest.length := by omega
+    simp only [hle, if_true]
+    cases i with
+    | zero => simp
+    | succ i =>
+      simp only [List.length_cons] at hi
+      have := ih (rest.drop n) i (by omega) (by simp only [List.length_drop]; omega)
+      simp only [List.getElem?_cons_succ, this, List.take_succ_cons, List.sum_cons, List.drop_drop,
+        List.getElem_cons_succ]
+
+/-- once the sizes exceed what is left the last call returns EOF, all earlier ones no error -/
+theorem specDrain_eof (sizes : List Nat) : ∀ rest : List UInt8, rest.length < sizes.sum →
+    ∃ pre o, specDrain rest sizes = pre ++ [(o, some .eof)] ∧ ∀ p ∈ pre, p.2 = none := by
+  induction sizes with
+  | nil => intro rest h; simp at h
+  | cons n ns ih =>
+    intro rest h
+    simp only [List.sum_cons] at h
+    unfold specDrain
+    by_cases hle : n ≤ rest.length
+    · simp only [hle, if_true]
+      obtain ⟨pre, o, he, hp⟩ := ih (rest.drop n) (by simp only [List.length_drop]; omega)
+      refine ⟨(rest.take n, none) :: pre, o, by rw [he]; rfl, ?_⟩
+      intro p hp'
+      rcases List.mem_cons.mp hp' with rfl | h'
+      · rfl
+      · exact hp p h'
+    · simp only [hle, if_false]
+      exact ⟨[], rest, rfl, by simp⟩
+
+/-! ## the statements for a well-formed stream read from the start -/
+
+theorem pending_init (segs : List Seg) (tl : List UInt8) (sc : List Nat) (hwf : WF segs) (htl : TailOK tl) :
+    Pending { src := frame segs ++ tl, sched := sc } (specOut segs) :=
+  ⟨[], segs, tl, hwf, htl, rfl, rfl, Or.inl ⟨rfl, rfl, rfl⟩⟩
+
+/-- `tl = []` (input ends after a complete segment) or `tl = 0x80 :: 3 :: garbage` (end marker) -/
+theorem pfb_refine_concat (segs : List Seg) (tl : List UInt8) (sc sizes : List Nat) (hwf : WF segs) (htl : TailOK tl) :
+    ((drain { src := frame segs ++ tl, sched := sc } sizes).map (·.1)).flatten = (specOut segs).take sizes.sum := by
+  rw [drain_spec sizes _ _ (pending_init segs tl sc hwf htl), specDrain_flatten]
+
+theorem pfb_refine_full (segs : List Seg) (tl : List UInt8) (sc sizes : List Nat) (hwf : WF segs) (htl : TailOK tl)
+    (i : Nat) (hi : i < sizes.length) (hsum : (sizes.take (i + 1)).sum ≤ (specOut segs).length) :
+    (drain { src := frame segs ++ tl, sched := sc } sizes)[i]? =
+      some (((specOut segs).drop (sizes.take i).sum).take sizes[i], none) ∧
+    (((specOut segs).drop (sizes.take i).sum).take sizes[i]).length = sizes[i] := by
+  rw [drain_spec sizes _ _ (pending_init segs tl sc hwf htl)]
+  refine ⟨specDrain_get sizes _ i hi hsum, ?_⟩
+  rw [List.take_succ_eq_append_getElem hi, List.sum_append] at hsum
+  simp only [List.length_take, List.length_drop]
+  simp at hsum
+  omega
+
+theorem pfb_refine_eof (segs : List Seg) (tl : List UInt8) (sc sizes : List Nat) (hwf : WF segs) (htl : TailOK tl)
+    (hsum : (specOut segs).length < sizes.sum) :
+    (∃ pre o, drain { src := frame segs ++ tl, sched := sc } sizes = pre ++ [(o, some .eof)] ∧
+      ∀ p ∈ pre, p.2 = none) ∧
+    ((drain { src := frame segs ++ tl, sched := sc } sizes).map (·.1)).flatten = specOut segs := by
+  refine ⟨?_, ?_⟩
+  · rw [drain_spec sizes _ _ (pending_init segs tl sc hwf htl)]
+    exact specDrain_eof sizes _ hsum
+  · rw [pfb_refine_concat segs tl sc sizes hwf htl, List.take_of_length_le (by omega)]
+
+/-- the end-marker form spelled out -/
+theorem pfb_refine_concat_marker (segs : List Seg) (garbage : List UInt8) (sc sizes : List Nat) (hwf : WF segs) :
+    ((drain { src := frame segs ++ ([0x80, 3] ++ garbage), sched := sc } sizes).map (·.1)).flatten =
+      (specOut segs).take sizes.sum :=
+  pfb_refine_concat segs _ sc sizes hwf (Or.inr ⟨garbage, rfl⟩)
+
+/-- the form without end marker spelled out -/
+theorem pfb_refine_concat_nomarker (segs : List Seg) (sc sizes : List Nat) (hwf : WF segs) :
+    ((drain { src := frame segs, sched := sc } sizes).map (·.1)).flatten = (specOut segs).take sizes.sum := by
+  have := pfb_refine_concat segs [] sc sizes hwf (Or.inl rfl)
+  rwa [List.append_nil] at this
+
+/-! non-vacuity: the definitions describe the byte format the model really reads -/
+example : frame [⟨1, [65, 66]⟩, ⟨2, [0xab]⟩] = [0x80, 1, 2, 0, 0, 0, 65, 66, 0x80, 2, 1, 0, 0, 0, 0xab] := by decide
+example : specOut [⟨1, [65, 66]⟩, ⟨2, [0xab]⟩] = [65, 66, 97, 98] := by decide
+example : drain { src := frame [⟨1, [65, 66]⟩, ⟨2, [0xab]⟩] ++ [0x80, 3], sched := [1, 1, 7] } [3, 5] =
+    [([65, 66, 97], none), ([98], some .eof)] := by decide
+example : drain { src := frame [⟨1, [65, 66]⟩, ⟨1, []⟩, ⟨2, [0xab]⟩] } [1, 1, 1, 1, 1] =
+    [([65], none), ([66], none), ([97], none), ([98], none), ([], some .eof)] := by decide
+
+#print axioms loop_spec
+#print axioms read_refines
+#print axioms drain_spec
+#print axioms pfb_refine_concat
+#print axioms pfb_refine_full
+#print axioms pfb_refine_eof
+#print axioms pfb_refine_concat_marker
+#print axioms pfb_refine_concat_nomarker
+#print axioms hexLower_take
+#print axioms hexLower_park
 
 end PsVerif.Proofs.PFBRefine
